@@ -303,6 +303,70 @@ theorem C11_wellformed_succeeds (style : DepsStyle) (hs : style ≠ .unused) (fi
   · rfl
   · simp [this, mapOk]
 
+theorem ok_of_mapOk {α β : Type} {f : α → β} {r : R α} {b : β} (h : mapOk f r = .ok b) : ∃ a, r = .ok a := by
+  cases r with
+  | ok a => exact ⟨a, rfl⟩
+  | error e => simp [mapOk] at h
+
+/-- a file that `processDiscoveredDependencies` accepts has been parsed to the end: its keys are defined -/
+theorem fileKeys_ok_of_process {style : DepsStyle} (wd : Bytes) {f : DepsFile} (h : processFile style f = .ok true) :
+    ∃ ks, fileKeys style wd f = .ok ks := by
+  cases f with
+  | none => exact ⟨[], rfl⟩
+  | some c =>
+    cases style with
+    | unused => exact ⟨[], rfl⟩
+    | makefile =>
+      obtain ⟨a, ha⟩ := ok_of_mapOk (show mapOk _ (MakeDeps.parse false c) = .ok true from h)
+      simp [fileKeys, ha, mapOk]
+    | makefileIgnoringSubsequentOutputs =>
+      obtain ⟨a, ha⟩ := ok_of_mapOk (show mapOk _ (MakeDeps.parse true c) = .ok true from h)
+      simp [fileKeys, ha, mapOk]
+    | dependencyInfo =>
+      obtain ⟨a, ha⟩ := ok_of_mapOk (show mapOk _ (DepInfo.parse c) = .ok true from h)
+      simp [fileKeys, ha, mapOk]
+
+/-- "instead of silently dropping dependencies", for the whole `deps:` LIST: `processDiscoveredDependencies` returning true
+is the only way the command can complete successfully (`completion`), and when it does, the keys handed to the engine are
+exactly the keys of EVERY file of the list — first, middle or last — concatenated in order.  (A loop that forgets the
+result of an earlier file, or stops early with `true`, does not have this property.) -/
+theorem C11_success_registers_every_file (style : DepsStyle) (wd : Bytes) (files : List DepsFile)
+    (h : processDiscoveredDependencies style files = .ok true) :
+    ∃ kss : List (List Bytes),
+      kss.length = files.length ∧ (∀ p ∈ files.zip kss, fileKeys style wd p.1 = .ok p.2) ∧
+      discoveredKeys style wd files = .ok kss.flatten := by
+  induction files with
+  | nil => exact ⟨[], rfl, by simp, by simp [discoveredKeys]⟩
+  | cons g gs ih =>
+    have hs : style ≠ .unused := by
+      intro hu; simp [processDiscoveredDependencies, hu] at h
+    simp only [processDiscoveredDependencies, hs, ↓reduceIte] at h
+    cases hg : processFile style g with
+    | error e => simp [hg] at h
+    | ok b =>
+      cases b with
+      | false => simp [hg] at h
+      | true =>
+        simp only [hg] at h
+        obtain ⟨kg, hkg⟩ := fileKeys_ok_of_process wd hg
+        obtain ⟨kss, hl, hf, hd⟩ := ih h
+        refine ⟨kg :: kss, by simp [hl], ?_, by simp [discoveredKeys, hs, hg, hkg, hd, mapOk]⟩
+        intro p hp
+        rcases List.mem_cons.1 (by simpa using hp) with rfl | hp'
+        · exact hkg
+        · exact hf p hp'
+
+/-- and the command is successful only in that case: a `deps:` list whose processing returns false (or is undefined)
+never yields `.succeeded` -/
+theorem C11_succeeded_only_if_processed (style : DepsStyle) (files : List DepsFile) (hne : files ≠ [])
+    (h : completion style files = .ok .succeeded) : processDiscoveredDependencies style files = .ok true := by
+  unfold completion at h
+  have : files.isEmpty = false := by cases files <;> simp_all
+  simp only [this] at h
+  cases hp : processDiscoveredDependencies style files with
+  | error e => simp [hp, mapOk] at h
+  | ok b => cases b <;> simp_all [mapOk]
+
 end LLBuild.ShellDeps
 
 /-! Non-vacuity -/
@@ -332,6 +396,13 @@ namespace LLBuild.ShellDeps
 example : completion .makefile [some [97, 32, 98]] = .ok .failed := by decide +kernel
 example : completion .makefile [some [97, 58, 32, 98, 10]] = .ok .succeeded := by decide +kernel
 example : completion .dependencyInfo [some [0, 118, 0, 0]] = .ok .failed := by decide +kernel
+-- a `deps:` list of two files, `a: b` and `c: /d`, working directory `/w`: both files' keys are registered
+example : processDiscoveredDependencies .makefile [some [97, 58, 32, 98, 10], some [99, 58, 32, 47, 100, 10]] = .ok true ∧
+    discoveredKeys .makefile [47, 119] [some [97, 58, 32, 98, 10], some [99, 58, 32, 47, 100, 10]] = .ok [[47, 119, 47, 98], [47, 100]] := by
+  decide +kernel
+-- the malformed file FIRST (`a b`), a well-formed one after it: Failed, and the second file is not even read
+example : completion .makefile [some [97, 32, 98], some [99, 58, 32, 47, 100, 10]] = .ok .failed ∧
+    discoveredKeys .makefile [47, 119] [some [97, 32, 98], some [99, 58, 32, 47, 100, 10]] = .ok [] := by decide +kernel
 end LLBuild.ShellDeps
 
 namespace LLBuild.DepInfo
